@@ -264,6 +264,42 @@ func TestRPCHandlers(t *testing.T) {
 				t.Fatalf("getHighestCommonBlock returned %x, the highest shared block is at height %d", resp.ID, highest)
 			}
 		}
+		// malformed getHighestCommonBlock requests (no data, undecodable, no id, ANY id that is not 32 bytes long - wherever it
+		// stands in the list): the handler bans the sender and serves nothing
+		for i := 0; i < 4; i++ {
+			var data []byte
+			kind := rapid.SampledFrom([]string{"nil", "undecodable", "empty-list", "mixed", "mixed", "mixed", "all-malformed"}).Draw(t, "malformedKind")
+			switch kind {
+			case "undecodable":
+				data = []byte{0x0a, 0xff, 0xff, 0xff, 0xff, 0x0f, 1, 2, 3}
+			case "empty-list":
+				data = (&csync.GetHighestCommonBlockRequest{IDs: [][]byte{}}).Encode()
+			case "mixed", "all-malformed":
+				k := rapid.IntRange(1, 6).Draw(t, "mixedIDs")
+				ids := make([][]byte, k)
+				for j := range ids {
+					h := rapid.Uint32Range(0, tip).Draw(t, "mixedHeight")
+					ids[j] = byHeight[h].Header.ID // well-formed, on the chain
+				}
+				badAt := map[int]bool{rapid.IntRange(0, k-1).Draw(t, "badAt"): true}
+				if kind == "all-malformed" {
+					for j := range ids {
+						badAt[j] = true
+					}
+				}
+				for j := range badAt {
+					l := rapid.SampledFrom([]int{0, 1, 31, 33, 64}).Draw(t, "badLen")
+					ids[j] = bytes.Repeat([]byte{9}, l)
+				}
+				data = (&csync.GetHighestCommonBlockRequest{IDs: ids}).Encode()
+			}
+			w := &rw{}
+			syncer.HandleRPCEndpointGetHighestCommonBlock()(w, &p2p.Request{Data: data, PeerID: "p"})
+			if w.called {
+				t.Fatalf("getHighestCommonBlock served a malformed request (%s): data=%x err=%v request=%x", kind, w.data, w.err, data)
+			}
+			evid.R.Label("rpc-malformed-request:"+kind, 1)
+		}
 		evid.R.Case(fmt.Sprintf("rpc|%d|%d|%d|%v", cache, length, len(orphan), tip), spansCap || spansCache, func() any {
 			return map[string]any{"kind": "rpc-handlers", "chainLength": tip, "blockCache": cache, "removedBlocks": len(orphan)}
 		}, "rpc-handlers")
